@@ -100,7 +100,7 @@ class Stats:
 class SymEngine:
     symbolic = True
 
-    def __init__(self, *, query_timeout_ms=10000, max_paths=4000, max_decisions=3000, max_wall_s=600.0, cache_key_mode=False):
+    def __init__(self, *, query_timeout_ms=10000, max_paths=4000, max_decisions=3000, max_wall_s=600.0, hash_mode="realize"):
         from . import q as _q
 
         self._q = _q
@@ -111,7 +111,11 @@ class SymEngine:
         self.max_paths = max_paths
         self.max_decisions = max_decisions
         self.max_wall_s = max_wall_s
-        self.cache_key_mode = cache_key_mode
+        # realize: hash(symbolic) forks on the value (finitely-valued terms only)
+        # mixed:   finitely-valued terms are realised, unbounded ones hash to a constant
+        # const:   every symbolic value hashes to a constant (sound under the hash contract:
+        #          equality is then always decided by __eq__, which forks symbolically)
+        self.hash_mode = hash_mode
         self.stats = Stats()
         self.violations = []
         self.inconclusive = []
@@ -140,6 +144,7 @@ class SymEngine:
         self.used_stub = False
         self.n_fresh = 0
         self.notes = []
+        self.hash_log = []
 
     # ------------------------------------------------------------------ inputs
 
@@ -382,17 +387,11 @@ class SymEngine:
             return val
 
     def hash_of(self, q):
-        if self.cache_key_mode:
-            f = sys._getframe(2)
-            depth = 0
-            while f is not None and depth < 12:
-                name = f.f_code.co_name
-                if name in _CACHE_KEY_FUNCS and "pint" in f.f_code.co_filename:
-                    return 0x5EED
-                if name == "__eq__":
-                    break
-                f = f.f_back
-                depth += 1
+        if self.hash_mode == "const":
+            self.hash_log.append(q.t)
+            return 0x5EED
+        if self.hash_mode == "mixed" and not self._finitely_valued(q.t):
+            return 0x5EED
         return hash(self.realize(q.t))
 
     def float_demand(self):
@@ -635,15 +634,6 @@ class SymEngine:
             self.solver.pop()
         summary["wall_s"] = time.perf_counter() - t_start
         return summary
-
-
-_CACHE_KEY_FUNCS = {
-    "_get_dimensionality",
-    "_get_root_units",
-    "_get_conversion_factor",
-    "_get_base_units",
-    "_parse_units_as_container",
-}
 
 
 def _eval_bool(m, e):
